@@ -1013,20 +1013,26 @@ def evolution_loop_check(spec_t, expr, seed, rewards, init=4, keep=6):
     algo.feedback(d, rw)
   return hits
 
+def evolution_loop_job(j):
+  try:
+    return evolution_loop_check(j['spec'], j['expr'], j['seed'], j['rewards'])
+  except Exception as e:   # pylint: disable=broad-except
+    return [('C14/raises/Evolution.loop/%s' % msg_key(e), 'the Evolution loop raises %s: %s' % (type(e).__name__, str(e)[:160]))]
+
 def evolution_loop_sweep(ctx, rng, n):
+  import os
   specs = [s for s in mode_specs() if not any(p[0] == 'X' for p in s[1])][:40]
   fixed = [[2, P([1, [0, NW_ALL]]), P([0, [0, [0, 3], 1]])],       # Uniform >> Random(3, replacement=True): the same new object several times
            [1], [13, [2, 2], P([1, [0, NW_ALL]])], [15, 3, [P([1, [0, NW_ALL]])], []], [9, 0, P([1, [0, NW_ALL]])],
            [2, P([0, [0, [0, 2], 0]]), [13, [1, 2], P([2, [1, 1]])]], [2, [2, P([0, [0, [0, 3], 0]]), P([0, [3, [0, 1], 0]])], P([1, [0, NW_ALL]])]]
-  done = 0
+  jobs = []
   for i in range(n):
-    s = rng.choice(specs)
-    expr = fixed[i] if i < len(fixed) else gen_expr(rng, rng.choice([1, 2, 2, 3]))
-    seed = rng.randint(0, 999); rewards = [rng.randint(0, 8) / 4.0 for _ in range(rng.choice([8, 12, 16]))]
-    for sig, what in evolution_loop_check(s, expr, seed, rewards):
-      ctx.hit(sig, what, dict(kind='evolution-loop', spec=s, expr=expr, seed=seed, rewards=rewards))
-    done += 1
-  return done
+    jobs.append(dict(kind='evolution-loop', spec=rng.choice(specs), expr=fixed[i] if i < len(fixed) else gen_expr(rng, rng.choice([1, 2, 2, 3])),
+                     seed=rng.randint(0, 999), rewards=[rng.randint(0, 8) / 4.0 for _ in range(rng.choice([8, 12, 16]))]))
+  for j, hits in zip(jobs, run_jobs(evolution_loop_job, jobs, min(12, os.cpu_count() or 1))):
+    for sig, what in hits:
+      ctx.hit(sig, what, j)
+  return len(jobs)
 
 def process_case(c):
   """One case in a worker process: run the implementation with the recorder, evaluate the oracle.  Never raises:
